@@ -71,7 +71,16 @@ pub fn redacted_action(uri: &str) -> serde_json::Value {
 
 /// Sign `src` with the definition; `ingredients` = (json, format, bytes) added explicitly.
 pub fn sign(defj: &str, intent: Option<BuilderIntent>, fmt: &str, src: &[u8], ingredients: &[(String, String, Vec<u8>)]) -> c2pa::Result<Vec<u8>> {
-    let c = ctx().with_signer(signer());
+    sign_with(settings_json(), defj, intent, fmt, src, ingredients)
+}
+
+/// settings that make `Builder::sign` bind the asset with a box hash (`c2pa.hash.boxes`)
+pub fn box_hash_settings_json() -> &'static str {
+    r#"{"verify":{"remote_manifest_fetch":false,"ocsp_fetch":false},"core":{"prefer_compress_manifests":true}}"#
+}
+
+pub fn sign_with(settings: &str, defj: &str, intent: Option<BuilderIntent>, fmt: &str, src: &[u8], ingredients: &[(String, String, Vec<u8>)]) -> c2pa::Result<Vec<u8>> {
+    let c = Context::new().with_settings(settings)?.with_signer(signer());
     let mut b = Builder::from_context(c).with_definition(defj)?;
     if let Some(i) = intent {
         b.set_intent(i);
@@ -308,6 +317,153 @@ pub fn impl_verify(store: &hk::Store) -> String {
     canon_log(&log, r.is_ok())
 }
 
+const HARD_BINDING_MATCH: [&str; 3] = ["assertion.dataHash.match", "assertion.bmffHash.match", "assertion.boxesHash.match"];
+const HARD_BINDING_MISMATCH: [&str; 3] = ["assertion.dataHash.mismatch", "assertion.bmffHash.mismatch", "assertion.boxesHash.mismatch"];
+
+/// `Store::verify_store` with the asset (hook c21): the canonical log including the hard-binding
+/// match statuses, plus ` B=<label>`: the manifest whose hard binding was checked against the
+/// asset (manifest label in the URL of the hard-binding statuses; `-` if none was logged, `?` if
+/// they name more than one manifest). Also returns the raw log.
+pub fn impl_verify_asset(store: &hk::Store, fmt: &str, asset: &[u8]) -> (String, StatusTracker) {
+    use c2pa::verif_hooks::{c21 as hk21, c34 as hk34};
+    let mut log = StatusTracker::default();
+    let r = hk21::verify_store_with_stream(store, fmt, &mut Cursor::new(asset.to_vec()), &mut log, &ctx());
+    let mut out = vec![];
+    let mut bound: Vec<String> = vec![];
+    for item in log.logged_items() {
+        let Some(code) = item.validation_status.as_deref() else { continue };
+        let hb = HARD_BINDING_MATCH.contains(&code) || HARD_BINDING_MISMATCH.contains(&code);
+        let keep = match item.kind {
+            LogKind::Failure => code != "signingCredential.untrusted",
+            _ => MODELLED_NONFAILURE.contains(&code) || hb,
+        };
+        if keep {
+            out.push(format!("{code}@{}", if item.ingredient_uri.is_some() { "I" } else { "A" }));
+        }
+        if hb {
+            let l = hk34::manifest_label_from_uri(&item.label).unwrap_or("?".into());
+            if !bound.contains(&l) {
+                bound.push(l);
+            }
+        }
+    }
+    let b = match bound.len() {
+        0 => "-".to_string(),
+        1 => bound[0].clone(),
+        _ => "?".to_string(),
+    };
+    (format!("{} {} B={b}", if r.is_ok() { "ok" } else { "err" }, if out.is_empty() { "-".to_string() } else { out.join(",") }), log)
+}
+
+// ---------------------------------------------------------------------------------------------
+// `ValidationResults::from_store`: the real log with its URLs and the statuses recorded in the
+// ingredient assertions of the store go to the model's `fromStoreFilter`; the real
+// `from_store` (hook c04) answers on the implementation side
+// ---------------------------------------------------------------------------------------------
+
+fn kind_ch(k: &LogKind) -> &'static str {
+    match k {
+        LogKind::Success => "s",
+        LogKind::Informational => "i",
+        LogKind::Failure => "f",
+    }
+}
+
+fn filter_safe(s: &str) -> bool {
+    !s.is_empty() && s != "-" && !s.chars().any(|c| matches!(c, ' ' | '\n' | '~' | '+' | '!' | ',' | '|'))
+}
+
+/// (request line, implementation reply) for the real log of a validation of `store`; `None` when
+/// a string of the case cannot be expressed in the line protocol or a log item has no status code
+pub fn filter_case(store: &hk::Store, log: &StatusTracker) -> Option<(String, String, usize)> {
+    use c2pa::{validation_results::validation_codes::log_kind, verif_hooks::{c04 as hk04, c34 as hk34}};
+    let active = store.provenance_claim()?.label().to_string();
+    let mut groups = vec![];
+    for c in store.claims() {
+        for a in c.ingredient_assertions() {
+            let Ok(i) = hk::ingredient_from_assertion(a.assertion()) else { continue };
+            let flat: Option<Vec<(String, Option<String>)>> = match (&i.validation_results, &i.validation_status) {
+                (Some(vr), _) => {
+                    let mut v = vec![];
+                    let mut push = |sc: &c2pa::validation_results::StatusCodes| {
+                        for s in sc.success().iter().chain(sc.informational().iter()).chain(sc.failure().iter()) {
+                            v.push((s.code().to_string(), s.url().map(|u| u.to_string())));
+                        }
+                    };
+                    if let Some(am) = vr.active_manifest() {
+                        push(am);
+                    }
+                    for d in vr.ingredient_deltas().map(|d| d.as_slice()).unwrap_or(&[]) {
+                        push(d.validation_deltas());
+                    }
+                    Some(v)
+                }
+                (None, Some(vs)) => Some(vs.iter().map(|s| (s.code().to_string(), s.url().map(|u| u.to_string()))).collect()),
+                (None, None) => None,
+            };
+            let Some(flat) = flat else { continue };
+            let label = i.active_manifest.as_ref().or(i.c2pa_manifest.as_ref()).map(|m| m.url()).and_then(|u| hk34::manifest_label_from_uri(&u));
+            let mut items = vec![];
+            for (code, url) in flat {
+                let u = url.unwrap_or("-".into());
+                if !filter_safe(&code) || (u != "-" && !filter_safe(&u)) {
+                    return None;
+                }
+                items.push(format!("{code}~{u}~{}", kind_ch(&log_kind(&code))));
+            }
+            let l = label.unwrap_or("-".into());
+            if l != "-" && !filter_safe(&l) {
+                return None;
+            }
+            groups.push(format!("{l}!{}", if items.is_empty() { "-".to_string() } else { items.join("+") }));
+        }
+    }
+    let mut sts = vec![];
+    for item in log.logged_items() {
+        let Some(code) = item.validation_status.as_deref() else {
+            if item.err_val.is_some() {
+                return None;
+            }
+            continue;
+        };
+        let url = item.label.to_string();
+        if !filter_safe(code) || !filter_safe(&url) {
+            return None;
+        }
+        sts.push(format!("{code}~{url}~{}~{}", kind_ch(&item.kind), if item.ingredient_uri.is_some() { 1 } else { 0 }));
+    }
+    if !filter_safe(&active) {
+        return None;
+    }
+    let req = format!("filter active={active} recs={} log={}", if groups.is_empty() { "-".to_string() } else { groups.join("|") }, if sts.is_empty() { "-".to_string() } else { sts.join(",") });
+    // implementation: the statuses the real from_store kept
+    let vr = hk04::results_from_store(store, log);
+    let mut n = 0usize;
+    let mut fails = vec![];
+    let mut take = |sc: &c2pa::validation_results::StatusCodes, scope: &str| {
+        n += sc.success().len() + sc.informational().len() + sc.failure().len();
+        for s in sc.failure() {
+            fails.push(format!("{}@{scope}~{}", s.code(), s.url().unwrap_or("-")));
+        }
+    };
+    if let Some(am) = vr.active_manifest() {
+        take(am, "A");
+    }
+    for d in vr.ingredient_deltas().map(|d| d.as_slice()).unwrap_or(&[]) {
+        take(d.validation_deltas(), "I");
+    }
+    fails.sort();
+    let dropped = sts.len().saturating_sub(n);
+    Some((req, format!("{n} {}", if fails.is_empty() { "-".to_string() } else { fails.join(",") }), dropped))
+}
+
+/// validate `store` with the real `Store::verify_store` (no asset) and return the filter case
+pub fn filter_case_of_store(store: &hk::Store) -> Option<(String, String, usize)> {
+    let mut log = StatusTracker::default();
+    let _ = hk19::verify_store(store, &mut log, &ctx());
+    filter_case(store, &log)
+}
+
 // ---------------------------------------------------------------------------------------------
 // crafting an active claim on top of an existing manifest store
 // ---------------------------------------------------------------------------------------------
@@ -334,6 +490,85 @@ pub struct Craft {
     pub thumbnails: usize,
     /// further hard-binding assertions of the claim itself: "boxes", "bmff.v1", "bmff.v2", "bmff.v3"
     pub own_hashes: Vec<String>,
+    /// failure statuses (code, url) pre-recorded in the validation results of every ingredient
+    /// assertion of the crafted claim (what `ValidationResults::from_store` filters against)
+    pub prerecorded: Vec<(String, String)>,
+    /// apply `silent_removals` before the ingredient assertion is made, so that its hashed URI is
+    /// the box hash of the altered ingredient manifest
+    pub rehash: bool,
+    /// the first ingredient assertion (v3) carries no validation results at all
+    pub first_without_results: bool,
+}
+
+// ---------------------------------------------------------------------------------------------
+// JUMBF surgery: remove one assertion box (any label, also actions / hard bindings, which
+// `Claim::redact_assertion` refuses) from a serialised manifest store
+// ---------------------------------------------------------------------------------------------
+
+fn jumb_children(d: &[u8], start: usize, end: usize) -> Vec<(usize, usize, [u8; 4])> {
+    let mut out = vec![];
+    let mut p = start;
+    while p + 8 <= end {
+        let sz = u32::from_be_bytes([d[p], d[p + 1], d[p + 2], d[p + 3]]) as usize;
+        let ty = [d[p + 4], d[p + 5], d[p + 6], d[p + 7]];
+        let sz = if sz == 0 { end - p } else { sz };
+        if sz < 8 || p + sz > end {
+            break;
+        }
+        out.push((p, sz, ty));
+        p += sz;
+    }
+    out
+}
+
+/// label of a `jumb` superbox starting at `p` (from its `jumd` description box)
+fn jumb_label(d: &[u8], p: usize, sz: usize) -> Option<String> {
+    let kids = jumb_children(d, p + 8, p + sz);
+    let (dp, dsz, ty) = *kids.first()?;
+    if &ty != b"jumd" || dsz < 8 + 17 {
+        return None;
+    }
+    let toggles = d[dp + 8 + 16];
+    if toggles & 0x02 == 0 {
+        return None;
+    }
+    let s = &d[dp + 8 + 17..dp + dsz];
+    let n = s.iter().position(|b| *b == 0)?;
+    String::from_utf8(s[..n].to_vec()).ok()
+}
+
+fn jumb_child_by_label(d: &[u8], p: usize, sz: usize, label: &str) -> Option<(usize, usize)> {
+    jumb_children(d, p + 8, p + sz).into_iter().find(|(cp, csz, ty)| ty == b"jumb" && jumb_label(d, *cp, *csz).as_deref() == Some(label)).map(|(a, b, _)| (a, b))
+}
+
+/// the store without the box `manifest/c2pa.assertions/label` (sizes of the enclosing boxes fixed)
+pub fn jumbf_remove_assertion(d: &[u8], manifest: &str, label: &str) -> Option<Vec<u8>> {
+    let (tp, tsz, tty) = *jumb_children(d, 0, d.len()).first()?;
+    if &tty != b"jumb" {
+        return None;
+    }
+    let (mp, msz) = jumb_child_by_label(d, tp, tsz, manifest)?;
+    let (ap, asz) = jumb_child_by_label(d, mp, msz, "c2pa.assertions")?;
+    let (xp, xsz) = jumb_child_by_label(d, ap, asz, label)?;
+    let mut out = d.to_vec();
+    for (p, sz) in [(tp, tsz), (mp, msz), (ap, asz)] {
+        let n = (sz - xsz) as u32;
+        if u32::from_be_bytes([d[p], d[p + 1], d[p + 2], d[p + 3]]) == 0 {
+            continue;
+        }
+        out[p..p + 4].copy_from_slice(&n.to_be_bytes());
+    }
+    out.drain(xp..xp + xsz);
+    Some(out)
+}
+
+/// `ValidationResults` carrying the given failure statuses under `activeManifest`
+pub fn prerecorded_results(items: &[(String, String)]) -> ValidationResults {
+    if items.is_empty() {
+        return ValidationResults::default();
+    }
+    let failure: Vec<serde_json::Value> = items.iter().map(|(c, u)| serde_json::json!({"code": c, "url": u})).collect();
+    serde_json::from_value(serde_json::json!({"activeManifest": {"success": [], "informational": [], "failure": failure}})).unwrap_or_default()
 }
 
 pub struct Crafted {
@@ -355,7 +590,23 @@ pub fn craft(c: &Craft, asset: &[u8]) -> c2pa::Result<Crafted> {
     for (jumbf, rel) in &c.ingredients {
         let i_store = hk::Store::load_ingredient_to_claim(&mut claim, jumbf, c.load_redactions.clone(), &context)?;
         let pc = i_store.provenance_claim().ok_or(c2pa::Error::ClaimEncoding)?;
-        let (bh, sh) = hk19::store_manifest_box_hashes(&i_store, pc);
+        let (mut bh, sh) = hk19::store_manifest_box_hashes(&i_store, pc);
+        if c.rehash {
+            // the ingredient is altered first and its hashed URI is computed over the altered
+            // manifest (a signer importing an already damaged ingredient, or damaging it itself)
+            let l = pc.label().to_string();
+            for u in &c.silent_removals {
+                if u.contains(&l) {
+                    if let Some(ic) = claim.claim_ingredient_mut(&l) {
+                        hk::claim_redact_assertion(ic, u)?;
+                    }
+                }
+            }
+            if let Some(ic) = claim.claim_ingredients().into_iter().find(|x| x.label() == l) {
+                // a fresh store has no box-hash cache entry for the label
+                bh = hk19::store_manifest_box_hashes(&hk::Store::new(), ic).0;
+            }
+        }
         let relationship = match rel.as_str() {
             "p" => Relationship::ParentOf,
             "c" => Relationship::ComponentOf,
@@ -366,11 +617,11 @@ pub fn craft(c: &Craft, asset: &[u8]) -> c2pa::Result<Crafted> {
             relationship,
             Some(HashedUri::new(hk19::to_manifest_uri(pc.label()), Some(pc.alg().to_string()), &bh)),
             Some(HashedUri::new(hk19::to_signature_uri(pc.label()), Some(pc.alg().to_string()), &sh)),
-            Some(ValidationResults::default()),
+            if c.first_without_results && ing_uris.is_empty() { None } else { Some(prerecorded_results(&c.prerecorded)) },
         )?;
         ing_uris.push((uri, rel.clone()));
     }
-    for u in &c.silent_removals {
+    for u in c.silent_removals.iter().filter(|_| !c.rehash) {
         let labels: Vec<String> = claim.claim_ingredients().iter().map(|x| x.label().to_string()).collect();
         for l in labels {
             if u.contains(&l) {
@@ -397,6 +648,14 @@ pub fn craft(c: &Craft, asset: &[u8]) -> c2pa::Result<Crafted> {
                 let mut bh = c2pa::assertions::BmffHash::new("jumbf manifest", "sha256", None);
                 bh.set_bmff_version(k[6..].parse().unwrap_or(3));
                 claim.add_assertion(&bh)?;
+            }
+            // labels of hard bindings the SDK has no assertion type for (`hash_assertions()` does
+            // not return them): collection data hash, multi-part data hash
+            "collection" => {
+                hk::claim_add_user_assertion(&mut claim, "c2pa.hash.collection.data", r#"{"uris":[],"alg":"sha256"}"#)?;
+            }
+            "data.part" => {
+                hk::claim_add_user_assertion(&mut claim, "c2pa.hash.data.part", r#"{"alg":"sha256"}"#)?;
             }
             _ => {}
         }
@@ -431,7 +690,12 @@ pub fn craft(c: &Craft, asset: &[u8]) -> c2pa::Result<Crafted> {
         claim.add_assertion(&th)?;
     }
     hk19::claim_set_update_manifest(&mut claim, c.update);
-    claim.build()?;
+    match claim.build() {
+        // `build` adds the signature box link first and then refuses a second claim thumbnail;
+        // a crafted claim with several thumbnails keeps the link and ignores the refusal
+        Err(c2pa::Error::OtherError(_)) if c.thumbnails > 1 => {}
+        r => r?,
+    }
     let s = signer();
     let mut settings = c2pa::Settings::default();
     settings.verify.verify_after_sign = false;
